@@ -2,6 +2,7 @@
 
 Task "expr": generated expression trees over user-defined / dense / Hermitian / Jacobian leaves, compared with the same
 expression on dense matrices (mv, mm, rmv, rmm, fullmatrix, .H, shapes).
+Task "dag": the same for expressions in which an operand OBJECT occurs more than once (sub-expressions re-used by reference).
 Task "reject": shape / Hermiticity / type violations must raise the documented error.
 Task "classes": stateful histories of class definitions and first instantiations (fresh classes per example via type()):
 capability flags and routing must follow the methods the class's own MRO defines, whatever was instantiated before.
@@ -18,9 +19,13 @@ from pbt.harness import Task, ok, violation, discard, xt_call
 PID = "C11"
 RULE = ("expr: expression trees of depth<=3 (thorough 4) over leaves {mv-only, mv+rmv, mv+mm, all products, dense-wrapped, "
         "Hermitian-flagged, Jacobian operator} combined with .H, matmul, +, -, scalar*; operator batch shapes broadcastable by "
-        "construction, operand batch shapes likewise; f32/f64/c128; rectangular shapes. reject: one deliberately invalid call per case. "
+        "construction, operand batch shapes likewise; f32/f64/c128; rectangular shapes. dag: straight-line programs of 1..3 (thorough 5) "
+        "steps whose operands are drawn among the nodes built so far BY REFERENCE, their own .H views, a scalar multiple of the other "
+        "operand, or new leaves (A+A.H, A-A.H, A.H-A, A@A, A.H@A, cA-A, X op f(X), ...); the dense reference is the same program on the "
+        "matrices; the shared operands are re-checked after the expression was built and used. reject: one deliberately invalid call per case. "
         "classes: RuleBasedStateMachine over define-class / instantiate / probe steps. Non-trivial = tree with >=1 composition and a "
-        "non-trivial batch or rectangular shape (expr), or a history in which a subclass is instantiated after its parent (classes).")
+        "non-trivial batch or rectangular shape (expr), a program in which a node reachable from the result fills >=2 operand slots (dag), "
+        "or a history in which a subclass is instantiated after its parent (classes).")
 ASSUMPTIONS = [
     "tolerance 200*eps*(|expr|(|leaves|) |x|) elementwise (abs-value evaluation of the same tree bounds the rounding)",
     "user leaf classes implement their products with torch.matmul on the reference matrix (so they are correct by construction)",
@@ -92,31 +97,7 @@ def build(tree, g, dtype, counters):
     import xitorch
     op = tree["op"]
     if op == "leaf":
-        kind = tree["kind"]
-        p, q = tree["p"], tree["q"]
-        herm = kind in ("herm_user", "herm_dense")
-        M = leaf_matrix(g, tree["batch"], p, q, dtype, herm)
-        if kind in METHODSETS:
-            cls = make_user_class("U_" + kind, METHODSETS[kind] + ["_getparamnames"], counter=counters)
-            A = cls(M)
-        elif kind == "dense":
-            A = xitorch.LinearOperator.m(M)
-        elif kind == "herm_dense":
-            A = xitorch.LinearOperator.m(M, is_hermitian=tree.get("flag"))
-        elif kind == "herm_user":
-            cls = make_user_class("U_herm", ["_mv", "_getparamnames"], counter=counters)
-            A = cls(M, is_hermitian=True)
-        elif kind == "jac":
-            x0 = torch.zeros((q,), dtype=dtype, requires_grad=True)
-            Mj = M
-
-            def f(x):
-                return torch.matmul(Mj, x) + torch.ones((p,), dtype=dtype)
-            from xitorch.grad import jac as _jac
-            A = _jac(f, params=(x0,), idxs=0)
-        else:
-            raise ValueError(kind)
-        return A, M, M.abs()
+        return build_leaf(tree, g, dtype, counters)
     if op == "H":
         A, R, Ra = build(tree["a"], g, dtype, counters)
         return A.H, R.transpose(-2, -1).conj(), Ra.transpose(-2, -1)
@@ -126,6 +107,10 @@ def build(tree, g, dtype, counters):
         return (A * f if tree["side"] == "r" else f * A), R * f, Ra * abs(f)
     A, R, Ra = build(tree["a"], g, dtype, counters)
     B, S, Sa = build(tree["b"], g, dtype, counters)
+    return combine(op, A, R, Ra, B, S, Sa)
+
+
+def combine(op, A, R, Ra, B, S, Sa):
     if op == "matmul":
         return A.matmul(B), torch.matmul(R, S), torch.matmul(Ra, Sa)
     if op == "add":
@@ -133,6 +118,35 @@ def build(tree, g, dtype, counters):
     if op == "sub":
         return A - B, R - S, Ra + Sa
     raise ValueError(op)
+
+
+def build_leaf(tree, g, dtype, counters):
+    import xitorch
+    kind = tree["kind"]
+    p, q = tree["p"], tree["q"]
+    herm = kind in ("herm_user", "herm_dense")
+    M = leaf_matrix(g, tree["batch"], p, q, dtype, herm)
+    if kind in METHODSETS:
+        cls = make_user_class("U_" + kind, METHODSETS[kind] + ["_getparamnames"], counter=counters)
+        A = cls(M)
+    elif kind == "dense":
+        A = xitorch.LinearOperator.m(M)
+    elif kind == "herm_dense":
+        A = xitorch.LinearOperator.m(M, is_hermitian=tree.get("flag"))
+    elif kind == "herm_user":
+        cls = make_user_class("U_herm", ["_mv", "_getparamnames"], counter=counters)
+        A = cls(M, is_hermitian=True)
+    elif kind == "jac":
+        x0 = torch.zeros((q,), dtype=dtype, requires_grad=True)
+        Mj = M
+
+        def f(x):
+            return torch.matmul(Mj, x) + torch.ones((p,), dtype=dtype)
+        from xitorch.grad import jac as _jac
+        A = _jac(f, params=(x0,), idxs=0)
+    else:
+        raise ValueError(kind)
+    return A, M, M.abs()
 
 
 def depth(tree):
@@ -176,6 +190,18 @@ def run_expr(case):
     labels = ["depth=%d" % d, "dtype=" + case["dtype"]] + sorted({"leaf=" + l["kind"] for l in lv}) + \
              ["batchrank=%d" % len(R.shape[:-2])]
     p, q = R.shape[-2:]
+    v = check_products(A, R, Ra, case, g, dtype, labels)
+    if v is not None:
+        return v
+    nontrivial = d >= 1 and (len(R.shape) > 2 or p != q)
+    return ok(labels, nontrivial)
+
+
+def check_products(A, R, Ra, case, g, dtype, labels):
+    """all products of the operator A against the dense matrix R (Ra: the same expression of the absolute values, which
+    bounds the rounding); returns a violation or None"""
+    eps = torch.finfo(dtype).eps
+    p, q = R.shape[-2:]
     if tuple(A.shape) != tuple(R.shape):
         return violation("shape_attr", "operator.shape=%s, dense expression has shape %s" % (tuple(A.shape), tuple(R.shape)), labels)
     RH = R.transpose(-2, -1).conj()
@@ -212,8 +238,88 @@ def run_expr(case):
         msg = close(got_mm[..., c], col.expand(got_mm[..., c].shape), 2 * torch.matmul(Ra, X.abs())[..., c], eps, "mm-vs-mv column %d" % c)
         if msg:
             return violation("mm_vs_mv", msg, labels)
-    nontrivial = d >= 1 and (len(R.shape) > 2 or p != q)
-    return ok(labels, nontrivial)
+    return None
+
+
+# ------------------------------------------------------------------ expressions with shared operands (DAGs)
+
+def build_prog(prog, g, dtype, counters):
+    """straight-line program: every instruction builds one node from leaves / EARLIER NODES BY REFERENCE (the same operator
+    object may be used several times); the dense reference is the same program on the matrices.  Returns the list of
+    (operator, dense, abs-dense) of all nodes."""
+    vals = []
+    for ins in prog:
+        op = ins["op"]
+        if op == "leaf":
+            vals.append(build_leaf(ins, g, dtype, counters))
+        elif op == "H":
+            A, R, Ra = vals[ins["a"]]
+            vals.append((A.H, R.transpose(-2, -1).conj(), Ra.transpose(-2, -1)))
+        elif op == "mul":
+            A, R, Ra = vals[ins["a"]]
+            f = ins["f"]
+            vals.append(((A * f if ins["side"] == "r" else f * A), R * f, Ra * abs(f)))
+        else:
+            vals.append(combine(op, *vals[ins["a"]], *vals[ins["b"]]))
+    return vals
+
+
+def prog_stats(prog):
+    """(number of operand slots per node reachable from the output, patterns present)"""
+    uses = [0] * len(prog)
+    reach = [False] * len(prog)
+    reach[-1] = True
+    for i in range(len(prog) - 1, -1, -1):
+        if reach[i]:
+            for k in ("a", "b"):
+                if k in prog[i] and prog[i]["op"] != "leaf":
+                    uses[prog[i][k]] += 1
+                    reach[prog[i][k]] = True
+
+    def is_h_of(i, j):
+        return prog[i]["op"] == "H" and prog[i]["a"] == j
+    pats = set()
+    for i, ins in enumerate(prog):
+        if not reach[i] or ins["op"] not in ("add", "sub", "matmul"):
+            continue
+        a, b = ins["a"], ins["b"]
+        sym = {"add": "+", "sub": "-", "matmul": "@"}[ins["op"]]
+        if a == b:
+            pats.add("pattern=A%sA" % sym)
+        elif is_h_of(b, a):
+            pats.add("pattern=A%sA.H" % sym)
+        elif is_h_of(a, b):
+            pats.add("pattern=A.H%sA" % sym)
+        elif prog[a]["op"] == "mul" and prog[a]["a"] == b or prog[b]["op"] == "mul" and prog[b]["a"] == a:
+            pats.add("pattern=cA%sA" % sym)
+    return uses, reach, pats
+
+
+def run_dag(case):
+    torch.manual_seed(0)
+    g = gen.seeded(case["seed"])
+    dtype = DT[case["dtype"]]
+    prog = case["prog"]
+    counters = {}
+    vals = xt_call(build_prog, prog, g, dtype, counters, _where="construct")
+    A, R, Ra = vals[-1]
+    uses, reach, pats = prog_stats(prog)
+    shared = [i for i in range(len(prog)) if reach[i] and uses[i] >= 2]
+    implicit_shared = any(prog[i]["op"] != "leaf" or prog[i]["kind"] not in ("dense", "herm_dense") for i in shared)
+    labels = ["dag-nodes=%d" % sum(reach), "dtype=" + case["dtype"], "shared=%d" % min(len(shared), 3)] + sorted(pats) + \
+        sorted({"leaf=" + ins["kind"] for i, ins in enumerate(prog) if reach[i] and ins["op"] == "leaf"}) + \
+        ["batchrank=%d" % len(R.shape[:-2])] + (["shared-implicit"] if implicit_shared else [])
+    v = check_products(A, R, Ra, case, g, dtype, labels)
+    if v is not None:
+        return v
+    # the shared operands themselves must not have been affected by being used in several places
+    sel = case.get("which")
+    for i in shared[:2]:
+        Ai, Ri, Rai = vals[i]
+        v = check_products(Ai, Ri, Rai, dict(case, which=sel or ["mv", "rmv", "fullmatrix"]), g, dtype, labels + ["operand-recheck"])
+        if v is not None:
+            return violation("shared_operand:" + v.kind, "node %d (used %d times) after building the expression: %s" % (i, uses[i], v.detail), labels)
+    return ok(labels, bool(shared))
 
 
 # ------------------------------------------------------------------ rejections
@@ -502,6 +608,73 @@ def expr_st(draw, tier="quick"):
 
 
 @st.composite
+def dag_st(draw, tier="quick"):
+    """straight-line programs whose operands are drawn among the nodes built so far (by reference), their .H views, or new leaves"""
+    dtype = draw(st.sampled_from(["f64", "f64", "c128", "c128", "f32"]))
+    batch = draw(st.lists(st.integers(1, 3), max_size=2))
+    p0 = draw(st.integers(1, 4))
+    q0 = p0 if draw(st.integers(0, 3)) else draw(st.integers(1, 4))
+    prog, shapes = [], []
+
+    def emit(ins, shape):
+        prog.append(ins)
+        shapes.append(shape)
+        return len(prog) - 1
+
+    def new_leaf(p, q):
+        kinds = ["mv", "mv_rmv", "mv_mm", "all", "mv", "mv_rmv", "dense", "jac"] + (["herm_user", "herm_dense"] if p == q else [])
+        kind = draw(st.sampled_from(kinds))
+        b = _sub_batch(draw, batch)
+        if kind == "jac":
+            if dtype == "c128":
+                kind = "mv"
+            else:
+                b = []
+        leaf = {"op": "leaf", "kind": kind, "p": p, "q": q, "batch": b}
+        if kind == "herm_dense":
+            leaf["flag"] = draw(st.sampled_from([None, True]))
+        return emit(leaf, (p, q))
+
+    def operand(ok_shape, newshape, scaled_of=None):
+        """an existing node whose shape satisfies ok_shape, the .H view of an existing node, a multiple of the other operand,
+        or (last choice) a new leaf"""
+        cands = [("n", i) for i, sh in enumerate(shapes) if ok_shape(sh)] + \
+                [("h", i) for i, sh in enumerate(shapes) if ok_shape((sh[1], sh[0]))] + \
+                ([("m", scaled_of)] if scaled_of is not None else [])
+        k = draw(st.integers(0, len(cands)))
+        if k == len(cands):
+            return new_leaf(*newshape())
+        how, i = cands[k]
+        if how == "n":
+            return i
+        if how == "m":
+            return emit({"op": "mul", "a": i, "f": draw(st.sampled_from([2, -1, 0.5, 1])), "side": draw(st.sampled_from(["l", "r"]))}, shapes[i])
+        return emit({"op": "H", "a": i}, (shapes[i][1], shapes[i][0]))
+
+    new_leaf(p0, q0)
+    nsteps = draw(st.integers(1, 3 if tier == "quick" else 5))
+    for _ in range(nsteps):
+        op = draw(st.sampled_from(["sub", "sub", "add", "matmul", "matmul", "mul", "H"]))
+        # first operand: mostly a node that exists already (so that later nodes combine X with expressions containing X)
+        a = draw(st.integers(0, len(prog) - 1)) if draw(st.integers(0, 2)) else operand(lambda sh: True, lambda: (p0, q0))
+        pa, qa = shapes[a]
+        if op == "H":
+            emit({"op": "H", "a": a}, (qa, pa))
+        elif op == "mul":
+            emit({"op": "mul", "a": a, "f": draw(st.sampled_from([2, -1, 0.5, -3.25, 1])), "side": draw(st.sampled_from(["l", "r"]))}, (pa, qa))
+        elif op == "matmul":
+            b = operand(lambda sh: sh[0] == qa, lambda: (qa, draw(st.integers(1, 4))))
+            emit({"op": "matmul", "a": a, "b": b}, (pa, shapes[b][1]))
+        else:
+            b = operand(lambda sh: sh == (pa, qa), lambda: (pa, qa), scaled_of=a)
+            emit({"op": op, "a": a, "b": b}, (pa, qa))
+    xb = _sub_batch(draw, batch)
+    if draw(st.integers(0, 4)) == 0:
+        xb = [draw(st.integers(1, 2))] + list(batch)
+    return {"prog": prog, "dtype": dtype, "xbatch": xb, "r": draw(st.integers(1, 3)), "seed": draw(st.integers(0, 2 ** 31 - 1))}
+
+
+@st.composite
 def reject_st(draw):
     return {"what": draw(st.sampled_from(["mv", "mm", "rmv", "rmm", "matmul", "add", "add_rows", "herm_nonsquare", "herm_notherm", "no_mv", "scalar_type"])),
             "kind": draw(st.sampled_from(["mv", "mv_rmv", "mv_mm", "all", "dense", "lenient", "lenient"])),
@@ -513,6 +686,7 @@ def reject_st(draw):
 def tasks(tier):
     return [
         Task("expr", strategy=expr_st(tier), run=run_expr, examples={"quick": 1600, "thorough": 30000}),
+        Task("dag", strategy=dag_st(tier), run=run_dag, examples={"quick": 700, "thorough": 12000}),
         Task("reject", strategy=reject_st(), run=run_reject, examples={"quick": 400, "thorough": 4000}),
         Task("classes", machine=machine, run=run_classes, examples={"quick": 400, "thorough": 6000},
              steps={"quick": 10, "thorough": 16}),
